@@ -10,3 +10,6 @@ import InToto.Properties.C08
 #print axioms InToto.C08.missing_subdir_is_empty
 #print axioms InToto.C08.depth_positive
 #print axioms InToto.C08.facts_sublayout_dir_format
+#print axioms InToto.C08.acceptance_implies_sublayouts_accepted
+#print axioms InToto.C08.summary_is_first_materials_last_products
+#print axioms InToto.C08.recursion_bound_is_irrelevant
